@@ -40,3 +40,54 @@ class SimReader(io.BytesIO):
     def seek(self, off, whence=0):
         self.seeks += 1
         return super().seek(off, whence)
+
+
+class SimRawReader(io.RawIOBase):
+    """The same storage seen through an UNBUFFERED stream (what open(path, 'rb', buffering=0) or a pipe gives): a RawIOBase
+    whose readinto() may legally return fewer bytes than asked for.  Budget and counters as SimReader."""
+
+    def __init__(self, data, budget_calls=None, budget_bytes=None, short_reads=None):
+        super().__init__()
+        self._data = bytes(data)
+        self._pos = 0
+        self.size = len(data)
+        self.calls = 0
+        self.bytes_read = 0
+        self.budget_calls = budget_calls
+        self.budget_bytes = budget_bytes
+        self.short_reads = short_reads      # None, or an int k: every read returns at most k bytes
+        self.eio_fired = False
+
+    def readable(self):
+        return True
+
+    def seekable(self):
+        return True
+
+    def readinto(self, b):
+        self.calls += 1
+        if self.budget_calls is not None and self.calls > self.budget_calls:
+            raise SimBudgetExceeded('read calls %d > budget %d (size %d)' % (self.calls, self.budget_calls, self.size))
+        n = len(b)
+        if self.short_reads:
+            n = min(n, self.short_reads)
+        chunk = self._data[self._pos:self._pos + n]
+        b[:len(chunk)] = chunk
+        self._pos += len(chunk)
+        self.bytes_read += len(chunk)
+        if self.budget_bytes is not None and self.bytes_read > self.budget_bytes:
+            raise SimBudgetExceeded('bytes read %d > budget %d' % (self.bytes_read, self.budget_bytes))
+        return len(chunk)
+
+    def seek(self, off, whence=0):
+        if whence == 0:
+            self._pos = off
+        elif whence == 1:
+            self._pos += off
+        else:
+            self._pos = len(self._data) + off
+        self._pos = max(0, self._pos)
+        return self._pos
+
+    def tell(self):
+        return self._pos
